@@ -12,7 +12,17 @@
    `D1` = the operation also passes the checked interpreter (discipline) on this heap;
    one `<entry>` per pool value AFTER the step:
      <fmt id>:<list id>:<chunk ids joined by .>:<4 memo flags uni,len,s,width>:<color_str flag per chunk>!<fmt>!<render>!<len>
-   A dangling reference or pool index answers `E:bad-ref`. -/
+   A dangling reference, a bad pool index or an undecodable operation answers `E:bad-ref`.
+
+   Operations (operands are pool indices unless noted):
+     lit <fmt> | fmtstr <text> <atts|-> | add a b | addstr a <text> | raddstr a <text> | mul a <int>
+     join sep <arg>… | getitem a int <i> | getitem a slice <x|N> <y|N> <0|1 step given>
+     splice a <arg> <start> <end|N> | append a <arg> | cwna a <atts|-> | nwar a <key,key|-> | cwns a <text> | copy a
+     slices a <s:e,s:e|->                      (split / splitlines: bounds are data)
+     just <L|R> a <width> <N|t<text>> <a<atts|->|E:kind>   (fill result text and shared_atts are data)
+     wslice a int <i> | wslice a slice <x|N> <y|N> | wsplit a <columns> <fmt>~<0|1>…   (yielded lines are data)
+     deleg a <E:kind|N|L<text>~<text>…> <a<atts|->|E:kind>
+     str a | len a | s a | width a | colorstr a <k> | setitem a | attsmut a <k> <method name> <atts after|-> -/
 import Curtsies.Wire
 import Curtsies.Model.Heap
 import Curtsies.Driver.Width
